@@ -33,7 +33,7 @@ abbrev LSet := List Level
 
 /-- generating pairs `(g', g)` of the refinement order `g' ⊑ g` -/
 def refinesBase : List (Level × Level) :=
-  [(.bg, .fg), (.fg, .hh), (.eg, .fg), (.wthh, .hh), (.bg, .wthh), (.sn, .ehe)]
+  [(.bg, .fg), (.fg, .hh), (.eg, .fg), (.eg, .bg), (.wthh, .hh), (.bg, .wthh), (.sn, .ehe)]
 
 /-- paths of length ≤ fuel in `refinesBase` -/
 def refinesFuel : Nat → Level → Level → Bool
